@@ -257,6 +257,10 @@ func doOp(ctx context.Context, st state.State, op string, act *actor) {
 			return nil
 		}, state.WithExpectedPhaseAny())
 		ignore(err)
+	case "compfin": // a third party holds the companion output
+		ignore(st.AddFinalizer(ctx, NewC("comp-"+id).Metadata(), "third"))
+	case "comprmfin":
+		ignore(st.RemoveFinalizer(ctx, NewC("comp-"+id).Metadata(), "third"))
 	case "settle": // a slow actor: it waits until the system has gone quiet before its next step
 		vrt.WaitQuiescent()
 	case "mkc": // the actor creates a second dependant of the input (kind C)
@@ -371,6 +375,47 @@ func register(rt *runtime.Runtime, c Cfg, invocations *int) error {
 			},
 			FinalizerRemovalFunc: func(context.Context, controller.Reader, *zap.Logger, *A) error { return nil },
 		}, opts...))
+	case "qtransform-extraout":
+		// the transform also manages a companion output (kind C, "comp-<id>"): wanted while the input's value is
+		// odd, torn down (and destroyed once nobody holds it) while it is even; a failure there is a failed
+		// transform: the item must be retried (seed c06i)
+		return rt.RegisterQController(qtransform.NewQController(qtransform.Settings[*A, *B]{
+			Name:              ctrlName,
+			MapMetadataFunc:   func(in *A) *B { return NewB("out-" + in.Metadata().ID()) },
+			UnmapMetadataFunc: func(out *B) *A { return NewA(strings.TrimPrefix(out.Metadata().ID(), "out-"), 0) },
+			TransformExtraOutputFunc: func(ctx context.Context, r controller.ReaderWriter, _ *zap.Logger, in *A, out *B) error {
+				if err := xform(in, out); err != nil {
+					return err
+				}
+				comp := NewC("comp-" + in.Metadata().ID())
+				if in.TypedSpec().Int%2 == 0 {
+					ready, err := r.Teardown(ctx, comp.Metadata())
+					if err != nil {
+						if state.IsNotFoundError(err) {
+							return nil
+						}
+						return err
+					}
+					if ready {
+						return r.Destroy(ctx, comp.Metadata())
+					}
+					return nil
+				}
+				existing, err := r.Get(ctx, comp.Metadata())
+				if err != nil && !state.IsNotFoundError(err) {
+					return err
+				}
+				if existing != nil && existing.Metadata().Phase() == resource.PhaseTearingDown && existing.Metadata().Finalizers().Empty() {
+					if err = r.Destroy(ctx, comp.Metadata()); err != nil {
+						return err
+					}
+				}
+				return safe.WriterModify(ctx, r, comp, func(c *C) error {
+					c.TypedSpec().Out = fmt.Sprint(in.TypedSpec().Int)
+					return nil
+				})
+			},
+		}, qtransform.WithExtraOutputs(controller.Output{Type: CType, Kind: controller.OutputExclusive})))
 	case "qtransform", "qtransform-until", "qtransform-while":
 		var opts []qtransform.ControllerOption
 		if c.Flavour == "qtransform-until" {
@@ -577,6 +622,23 @@ func checkConvergence(c Cfg, x *explore.X, final map[string]resource.Resource, a
 		}
 		if out.TypedSpec().Out != want && out.Metadata().Phase() == resource.PhaseRunning {
 			x.FailKey("converge/stale", "%s: at quiescence output %s does not carry the latest transformed content %q (stale output)", c.Name, snap(out), want)
+		}
+	}
+	if c.Flavour == "qtransform-extraout" {
+		for k, r := range final {
+			if !strings.HasPrefix(k, string(AType)+"/") {
+				continue
+			}
+			in := r.(*A)
+			comp, _ := final[string(CType)+"/comp-"+in.Metadata().ID()].(*C)
+			held := comp != nil && !comp.Metadata().Finalizers().Empty()
+			switch {
+			case in.Metadata().Phase() != resource.PhaseRunning || held:
+			case in.TypedSpec().Int%2 == 1 && (comp == nil || comp.Metadata().Phase() != resource.PhaseRunning || comp.TypedSpec().Out != fmt.Sprint(in.TypedSpec().Int)):
+				x.FailKey("converge/companion", "%s: at quiescence the companion output of the running input %s is %s, want a running one with content %d", c.Name, snap(in), snap(final[string(CType)+"/comp-"+in.Metadata().ID()]), in.TypedSpec().Int)
+				// (an unwanted companion that was held when the transform last ran stays torn down until the next
+				// change of the input: that is this transform function's choice, not the library's)
+			}
 		}
 	}
 	for id, want := range wantOut {
@@ -803,6 +865,12 @@ func Build(prop, tier string) []explore.Scenario {
 	for _, fl := range []string{"transform-fin", "qtransform"} {
 		cfgs = append(cfgs, Cfg{Name: fl + "/thirdparty-grabs-output-before-destroy", Flavour: fl, Script: []string{"create a", "tdd a", "outrmfin a"}, GrabAtDestroy: true, Bounds: []int{0}})
 	}
+	// a transform that also manages a companion output which a third party may hold
+	cfgs = append(cfgs,
+		Cfg{Name: "qtransform-extraout/held-companion-rewanted", Flavour: "qtransform-extraout", Script: []string{"create a", "compfin a", "update a", "update a", "comprmfin a"}, Bounds: []int{0}},
+		Cfg{Name: "qtransform-extraout/held-companion-released-early", Flavour: "qtransform-extraout", Script: []string{"create a", "compfin a", "update a", "comprmfin a", "update a"}, Bounds: []int{0}},
+		Cfg{Name: "qtransform-extraout/held-companion-tdd", Flavour: "qtransform-extraout", Script: []string{"create a", "compfin a", "update a", "update a", "tdd a", "comprmfin a"}, Bounds: []int{0}},
+	)
 	// the output kind is cached by the runtime and that cache lags behind the state
 	for _, fl := range []string{"transform-fin", "qtransform"} {
 		cfgs = append(cfgs,
